@@ -226,7 +226,7 @@ NC_check_id(int cdfid)
 {
     NC *handle;
 
-    handle = (cdfid >= 0 && cdfid < _ncdf) ? _cdfs[cdfid] : NULL;
+    handle = (_cdfs != NULL && cdfid >= 0 && cdfid < _ncdf) ? _cdfs[cdfid] : NULL;
     if (handle == NULL) {
         NCadvise(NC_EBADID, "%d is not a valid cdfid", cdfid);
         return NULL;
